@@ -1,5 +1,6 @@
 //! hx: conformance harness between the TLA+ specification in /verif/spec and the code in /repo.
 mod alloc;
+mod builtins;
 mod cipher;
 mod conn;
 mod hash;
@@ -19,6 +20,7 @@ fn main() {
     let args: Vec<String> = std::env::args().collect();
     let sub = args.get(1).map(|s| s.as_str()).unwrap_or("");
     match sub {
+        "builtins" => builtins::main(&args[2..]),
         "cipher" => cipher::main(&args[2..]),
         "conn" => conn::main(&args[2..]),
         "conn-timed" => conn::main_timed(&args[2..]),
